@@ -555,6 +555,35 @@ func runC13(c *Ctx) {
 			rv := core.ReturnErr(hg, r)
 			return rv != nil && core.MayBeNilError(rv, 0)
 		}, func(in ssa.Instruction) bool { return core.IsCallOf(in, isClientMethod("flush")) }, nil)
+		// the helper that emits the addendum may flush it itself
+		if len(w) > 0 && add != hg {
+			if ei, ok := emit.(ssa.Instruction); ok {
+				wi := core.ReachAvoiding(core.PointOf(ei), func(in ssa.Instruction) bool {
+					r, ok := in.(*ssa.Return)
+					if !ok {
+						return false
+					}
+					rv := core.ReturnErr(add, r)
+					return rv == nil || core.MayBeNilError(rv, 0)
+				}, func(in ssa.Instruction) bool { return core.IsCallOf(in, isClientMethod("flush")) }, nil)
+				// a return of the flush's own result is the flush
+				flushReturned := true
+				for _, x := range wi {
+					r, _ := x.At.(*ssa.Return)
+					if r == nil {
+						flushReturned = false
+						continue
+					}
+					rv := core.ReturnErr(add, r)
+					if _, ok := core.CallTo(rv, isClientMethod("flush")); !ok {
+						flushReturned = false
+					}
+				}
+				if len(wi) == 0 || flushReturned {
+					w = nil
+				}
+			}
+		}
 		if len(w) > 0 {
 			c.R.Bad(rule, core.FuncName(hg)+"/flush", cfg, p.Pos(call.Pos()), "the addendum can stay unflushed on a success path")
 		} else {
